@@ -116,6 +116,13 @@ impl Ctx {
     pub fn set_level(&self, l: &str) {
         *self.level.lock().unwrap() = l.to_string();
     }
+    /// Progress line on stderr when VERIF_TIMING is set (where a slow run spends its time).
+    pub fn lap(&self, what: &str) {
+        if std::env::var("VERIF_TIMING").is_ok() {
+            eprintln!("[{:8.1}s] {} {}", self.elapsed(), self.id, what);
+        }
+    }
+
     pub fn cov(&self, k: &str, v: Value) {
         self.coverage.lock().unwrap().insert(k.to_string(), v);
     }
